@@ -1099,7 +1099,7 @@ func (t *tree) newValueNode(tok item) ast.Node {
 		if strings.HasPrefix(tok.val, "0x") {
 			base = 16
 		}
-		value, err := strconv.ParseInt(tok.val, base, 64)
+		value, err := strconv.ParseInt(strings.TrimPrefix(tok.val, "0x"), base, 64)
 		if err != nil {
 			t.error(err)
 		}
